@@ -393,6 +393,14 @@ class VOpt(V):
         return f"VOpt({self.isnone},{self.val})"
 
 
+def beta_select(a, i):
+    """Select(a, i), beta-reducing when `a` is a one-variable lambda (keeps Lambda terms out of E-matching)."""
+    if z3.is_quantifier(a) and a.is_lambda() and a.num_vars() == 1:
+        i = i if z3.is_expr(i) else z3.IntVal(i)
+        return z3.substitute_vars(a.body(), i)
+    return z3.Select(a, i)
+
+
 class VSeq(V):
     def __init__(self, length, arrs, elem: Ty):
         self.len = z3.IntVal(length) if isinstance(length, int) else length
@@ -404,7 +412,7 @@ class VSeq(V):
         return [self.len] + self.arrs
 
     def at(self, i):
-        return self.elem.wrap([z3.Select(a, i) for a in self.arrs])
+        return self.elem.wrap([beta_select(a, i) for a in self.arrs])
 
     @staticmethod
     def empty(elem: Ty):
